@@ -926,6 +926,25 @@ func (fr *Frame) lookupNameAt(name string, at *ssa.BasicBlock, atEnd bool, maxOr
 			break
 		}
 	}
+	// at the end of a block, a variable that a successor merges with a phi has exactly the value the phi takes from
+	// this edge (increments like x++ leave no debug binding of their own)
+	if atEnd && maxOrd == 0 {
+		for _, s := range at.Succs {
+			for _, in := range s.Instrs {
+				ph, ok := in.(*ssa.Phi)
+				if !ok {
+					break
+				}
+				if ph.Comment == name {
+					if k := predIndex(s, at); k >= 0 && k < len(ph.Edges) {
+						if _, isConst := ph.Edges[k].(*ssa.Const); !isConst {
+							return ph.Edges[k], false, true
+						}
+					}
+				}
+			}
+		}
+	}
 	var best *nameBind
 	for i := range fr.names[name] {
 		nb := &fr.names[name][i]
@@ -1263,6 +1282,7 @@ func (fr *Frame) checkBackedge(li *loopInfo, from *ssa.BasicBlock, cond string, 
 		env := fr.envAt(from, true, nil)
 		env.heap = heap
 		env.lhead = fr.headHeap[li.ordinal]
+		env.lheadBlk = li.head
 		t, err := env.evalBool(cl.Expr)
 		if err != nil {
 			vc.specError(fr.fn, cl, err)
